@@ -64,6 +64,11 @@ def variants(c, is_throw):
     V.add(' ' + c + ' ')
     V.add(c + '\n')
     V.add('\t' + c)
+    if ' ' in c:
+        # the same blanks, many of them (a column-aligned export): more than 32 / 64 whitespace characters in all
+        V.add(c.replace(' ', ' ' * 40))
+        V.add(c.replace(' ', ' \t' * 9))
+        V.add(c.replace(' ', ' ' * 13))
     # weight suffix spellings
     m = re.search(r'(?<=\d)\s*([Kk][Gg]?)$', c) if is_throw else None
     if m:
